@@ -54,6 +54,12 @@ L75 == <<0, 750000, 1500000, 2250000, 3000000>>
 Frac3 == [id |-> "frac3", T |-> 7,      \* ... and a period that does not divide an hour (60/7 periods per hour)
           st |-> <<Fin(L75, 208, 0), Fin(L75, 208, 0), Cont(32 * A, 208, 0)>>,
           con |-> <<Con(<<1, 1, 0>>, 2240000), Con(<<1, 1, 1>>, 5003700)>>]
+\* two stations on one phase and one on another, a phasor-sum limit: LOWERING the pilot of one station can RAISE the
+\* magnitude of the sum (found by the thorough closed loop, simulation 164: the truncated lower bound 7 A of a 7.5 A
+\* station let the others be raised too far; the station then fell to 0 and the schedule was infeasible)
+Frac3p == [id |-> "frac3p", T |-> 5,
+           st |-> <<Fin(L75, 208, -90), Fin(L6f, 208, -90), Cont(40 * A, 208, 150)>>,
+           con |-> <<Con(<<1, 1, 1>>, 1803700)>>]
 \* coefficients larger than 1 (a station counted twice / a transformer ratio): the weighted line binds
 \* while the plain sum of the pilots is still below every limit
 Weighted3 == [id |-> "weighted3", T |-> 5,
@@ -79,9 +85,9 @@ Prof08Q == {PA, PB, PE, PL}
 Prof08T == {PA, PB, PC, PE, PG, PL}
 Prof08N == {PA, PB, PE, PL}                      \* on the four-station infrastructures
 
-Infras07Q == {Single3, Delta3, Frac3}
+Infras07Q == {Single3, Delta3, Frac3, Frac3p}
 Infras07T1 == {Single3, Single3x, Frac3}
-Infras07T2 == {Delta3, Uneq3, Weighted3}
+Infras07T2 == {Delta3, Uneq3, Weighted3, Frac3p}
 Infras07T == Infras07T1 \cup Infras07T2
 Infras07N == {Nested4}
 Infras08Q == {Delta3f, Uneq3, Weighted3}
